@@ -16,9 +16,10 @@ def run(ck):
         vec = result_vec(ck, 'C13.pressure', case, out)
         if vec is None:
             continue
-        want = pressure_expected(case.meta['values'])
+        from ..specs import pressure_allowed
+        want = pressure_allowed(case.meta['values'])
         got = [flags_of(X.eval_values(e.d, {})) for e in vec.els()]
-        ok = len(got) == len(want) and all(g == {w} for g, w in zip(got, want))
+        ok = len(got) == len(want) and all(len(g) == 1 and g <= w for g, w in zip(got, want))
         ck.ob('C13.pressure.table', case.label, ok,
               key=f'ioos_qc.argo.pressure_increasing_test:profile',
               what=f'{case.label}: flags {got}, the property gives {want}')
